@@ -262,7 +262,7 @@ pub fn gen_sessions(prop: &str, n: usize, seed_rng: &mut StdRng, sink: &mut crat
         if sink.room() < evs.len() {
             sink.rotate();
         }
-        sink.begin(&json!({"prop": prop, "session_start": b.as_fen()}));
+        sink.begin(&json!({"prop": prop, "session_start": crate::proj::own_fen(b.raw())}));
         for e in evs {
             sink.emit(&e);
         }
